@@ -920,6 +920,13 @@ class Calls(Interp):
             return
         yield from self.v_map_get(h.val, args, kwargs, st, e)
 
+    def m_dict_clear(self, ref, h, args, kwargs, st, e):
+        if h.val is not None:
+            m = h.val
+            o = opt_sort(to_sort(m.ty.args[1], self.reg))
+            self._store_container(st, ref, h, V(z3.K(to_sort(m.ty.args[0], self.reg), o.none), m.ty))
+        yield st, None
+
     def m_dict_pop(self, ref, h, args, kwargs, st, e):
         """d.pop(k[, default]): the value (or the default / KeyError), and k is gone afterwards"""
         if h.val is None:
